@@ -201,7 +201,10 @@ func (mv mapValue) IndexValue(iv Value) Value {
 	mr := reflect.ValueOf(mv.value)
 	ir := reflect.ValueOf(iv.Interface())
 	kt := mr.Type().Key()
-	if ir.IsValid() && ir.Type().ConvertibleTo(kt) && ir.Type().Comparable() {
+	// Go converts an integer to a string by taking it for a code point (65 -> "A"): an index only converts to
+	// the key type within its own kind family
+	sameFamily := kt.Kind() == reflect.Interface || ir.IsValid() && (ir.Kind() == reflect.String) == (kt.Kind() == reflect.String)
+	if ir.IsValid() && sameFamily && ir.Type().ConvertibleTo(kt) && ir.Type().Comparable() {
 		er := safeMapIndex(mr, ir.Convert(kt))
 		if er.IsValid() {
 			return ValueOf(er.Interface())
